@@ -30,6 +30,7 @@ def families(tier):
         {'name': 'A4', 'params': {'hist': 'BMB', 'kinds': ['is_dir'], 'roles': ['o'], 'targets': ['o/d/g'],
                                   'modes': ['ok', 'raise_after'], 'mut_paths': mp}, 'weight': 2},
     ]
+    q.append({'name': 'A8b', 'params': {'hist': 'BMB', 'kinds': ['is_dir'], 'mut_paths': ['o/d/z', 'o/d/e/z', 'o/d/e']}, 'weight': 1})
     q.append({'name': 'S1', 'params': {'hist': 'F'}, 'weight': 1})
     q.append({'name': 'S1', 'params': {'hist': 'BMF', 'mut_paths': ['o/d', 'o/d/g', 'o/z']}, 'weight': 2})
     q.append({'name': 'N3', 'params': {'hist': 'BBC', 'universe': UN3, 'kinds': ['is_dir'], 'roles': ['o']}, 'weight': 3})
